@@ -18,6 +18,7 @@ INVARIANT Delivered
 INVARIANT InOrder
 INVARIANT HwmSound
 INVARIANT SkippedExact
+INVARIANT MidNoHiddenGap
 INVARIANT LateIsLate
 INVARIANT StableExposed
 INVARIANT OverdueSkipped
